@@ -106,7 +106,12 @@ def make_data(rng, cfg, kind, n, N):
             allb = ["".join(b) for b in itertools.product("XYZ", repeat=n)]
             pick = rng.choice(len(allb), size=N, replace=len(allb) < N)
             bases = np.array([list(allb[p]) for p in pick], dtype=str).reshape(N, n)
-        nz = max(1, N // 3)
+        # reference-basis rows: about a third / exactly one / all but one (the start rows of the chains come from them)
+        nz = [max(1, N // 3), 1, max(1, N - 1)][int(rng.integers(0, 3))]
+        if nz == 1 and not cfg["dup"]:
+            for r in range(N):  # no accidental further all-Z rows
+                if all(c == "Z" for c in bases[r]):
+                    bases[r, int(rng.integers(0, n))] = "X"
         for r in rng.choice(N, size=nz, replace=False):
             bases[r] = "Z"
     return rows, bases
